@@ -426,17 +426,29 @@ fn run_child(source: &Path, threads: usize, jitter: Option<u64>, tag: &str) -> R
     let _ = std::fs::create_dir_all(&dir);
     let trace = dir.join(format!("trace-{}-{}.log", std::process::id(), tag));
     let _ = std::fs::remove_file(&trace);
-    let out = Command::new(exe)
-        .arg("c02")
-        .arg("child")
-        .arg(source)
-        .arg(threads.to_string())
-        .arg(jitter.map(|j| j.to_string()).unwrap_or_else(|| "-".into()))
-        .arg(&trace)
-        .env_remove("RUST_LOG")
-        .env("SOURCE_DATE_EPOCH", "1700000000")
-        .output()
-        .expect("spawn child");
+    // the binary may be replaced by a concurrent `cargo build`: retry the spawn for a while
+    let mut attempt = 0;
+    let out = loop {
+        let r = Command::new(&exe)
+            .arg("c02")
+            .arg("child")
+            .arg(source)
+            .arg(threads.to_string())
+            .arg(jitter.map(|j| j.to_string()).unwrap_or_else(|| "-".into()))
+            .arg(&trace)
+            .env_remove("RUST_LOG")
+            .env("SOURCE_DATE_EPOCH", "1700000000")
+            .output();
+        match r {
+            Ok(o) => break o,
+            Err(e) if attempt < 100 => {
+                attempt += 1;
+                let _ = e;
+                std::thread::sleep(std::time::Duration::from_millis(200));
+            }
+            Err(e) => panic!("spawn child: {e}"),
+        }
+    };
     let status = String::from_utf8_lossy(&out.stdout).trim().to_string();
     let status = if status.is_empty() { format!("crash {:?}", out.status.code()) } else { status };
     let log = std::fs::read_to_string(&trace).unwrap_or_default();
